@@ -23,6 +23,10 @@ META = {
 
 def run(s):
     q = s.tier == 'quick'
+
+    def on_pair_state(ro, cur, ev):
+        acc.sweep(s, ro, cur, {'workload': 'pair-history'}, after=(ev or {}).get('msg_cls'))
+    K.pair_histories(s, timing='any', text='hostile', on_state=on_pair_state)
     n = 150 if q else 5000
     w = K.kind_weights(1.0, 0.5, 0.4, 0.02)
     for h in range(n):
@@ -35,7 +39,7 @@ def run(s):
             if ev is not None:
                 kind = ev.get('msg_cls')
             acc.sweep(s, ro, cur, {'history': h}, after=kind)
-        K.fuzz_history(s, h, w, steps=(3, 15), text='hostile', timing=timing, on_state=on_state)
+        K.fuzz_history(s, h, w, steps=(3, 15), text='hostile', timing=timing, on_state=on_state, direct=0.25)
     s.hist['fuzz_histories_total'] = n
 
 
